@@ -77,7 +77,7 @@ type world struct {
 	userFile, dsnFile, dbFile, blacklist string
 	pristine                             map[string][]byte // file -> bytes
 	users                                map[string]defs.User
-	dbStamp                              string
+	dbStamp, blStamp                     string
 	logFile                              string
 }
 
@@ -377,6 +377,7 @@ func newWorld(scratch string) *world {
 
 	w.loggers = ui.ActiveLoggers()
 	w.dbStamp = stamp(w.dbFile)
+	w.blStamp = stamp(w.blacklist)
 
 	return w
 }
@@ -492,11 +493,15 @@ func (w *world) restore() []string {
 		repaired = append(repaired, "database")
 	}
 
-	// revoked tokens
-	if n, err := tokens.Flush(); err != nil {
-		report.Fatal("cannot empty the token blacklist: %v", err)
-	} else if n > 0 {
-		repaired = append(repaired, "blacklist")
+	// revoked tokens (the blacklist data base is only touched when its file changed)
+	if st := stamp(w.blacklist); st != w.blStamp {
+		if n, err := tokens.Flush(); err != nil {
+			report.Fatal("cannot empty the token blacklist: %v", err)
+		} else if n > 0 {
+			repaired = append(repaired, "blacklist")
+		}
+
+		w.blStamp = stamp(w.blacklist)
 	}
 
 	// stray files of the database kind next to the data base (created by odd DSN or table names)
